@@ -68,6 +68,11 @@ def main():
                 break
             with open(path, "w") as f:
                 f.write(text.replace(ed["old"], ed["new"]))
+        if ok_apply and m.get("patch"):
+            pr = subprocess.run(["patch", "-p1", "-s", "-d", SCRATCH, "-i", m["patch"]], stdout=subprocess.PIPE, stderr=subprocess.STDOUT, text=True)
+            if pr.returncode != 0:
+                print("MUTATION %s: patch does not apply: %s" % (m["name"], pr.stdout.strip()[:200]))
+                ok_apply = False
         if ok_apply:
             env = dict(os.environ, VERIF_REPO=SCRATCH, EXPRSMT_WORK=os.path.join(ST, "work"))
             t0 = time.time()
@@ -91,6 +96,11 @@ def main():
         for path, text in originals.items():
             with open(path, "w") as f:
                 f.write(text)
+        if ok_apply and m.get("patch"):
+            subprocess.run(["patch", "-p1", "-s", "-R", "-d", SCRATCH, "-i", m["patch"]], stdout=subprocess.PIPE, stderr=subprocess.STDOUT)
+    not_applied = [m["name"] for m in muts if (not names or m["name"] in names) and m["name"] not in [r[0] for r in results]]
+    if not_applied:
+        print("NOT APPLIED: %s" % not_applied)
     missed = [r for r in results if not r[3]]
     print("SELFTEST %d mutations, %d caught/ok, %d missed" % (len(results), len(results) - len(missed), len(missed)))
     return 1 if missed else 0
